@@ -4,12 +4,12 @@ From PLS Require Import Check.C05 Proofs.Basics Proofs.Available Proofs.Cascade.
 (** the per-file view used by completion and inlay hints has exactly one entry per
     name — every state, every file *)
 Theorem C05_available_one_entry_per_name :
-  forall dk roots s F, NoDup (map d_name (available dk roots s F)).
+  forall dk roots s F, NoDup (map d_name (available_cold dk roots s F)).
 Proof. exact available_names_nodup. Qed.
 Print Assumptions C05_available_one_entry_per_name.
 
 Theorem C05_available_entries_are_known_definitions :
-  forall dk roots s F d, In d (available dk roots s F) -> In d (defs s).
+  forall dk roots s F d, In d (available_cold dk roots s F) -> In d (defs s).
 Proof. exact available_entries_known. Qed.
 Print Assumptions C05_available_entries_are_known_definitions.
 
